@@ -385,18 +385,25 @@ func isZeroConst(v ssa.Value) bool {
 
 func c03DryGuards(e *Env, s *Sched) {
 	r := e.R
-	r.Rule("C03.dry-guards", "DCS", "Execute/setup/teardown/MkdirAll dominated by !dry", 5)
+	r.Rule("C03.dry-guards", "DCS", "Execute/setup/teardown/MkdirAll dominated by !dry", 3)
 	sp := e.P.Pkg(schedRel)
 	targets := map[string]bool{
-		"(*" + schedRel + ".Node).Execute":  true,
-		"(*" + schedRel + ".Node).setup":    true,
-		"(*" + schedRel + ".Node).teardown": true,
-		"os.MkdirAll":                       true,
-		"os.Mkdir":                          true,
+		"(*" + schedRel + ".Node).Execute": true,
+		"os.MkdirAll":                      true,
+		"os.Mkdir":                         true,
+	}
+	// the node's set-up and tear-down, by role (what they install / flush)
+	if nr := e.nodeRoles(); nr != nil {
+		if nr.Setup != nil {
+			targets[ir.FuncName(nr.Setup)] = true
+		}
+		if nr.Teardown != nil {
+			targets[ir.FuncName(nr.Teardown)] = true
+		}
 	}
 	isDry := func(v ssa.Value) bool {
 		p, ok := e.C.PathOf(v)
-		return ok && p.Dotted() == "dry" && strings.HasSuffix(ir.NamedType(p.Root.Type()), ".Scheduler")
+		return ok && p.Dotted() == e.schedFields().Dry && strings.HasSuffix(ir.NamedType(p.Root.Type()), ".Scheduler")
 	}
 	for _, f := range e.RepoFuncsSorted() {
 		if rootFn(f).Package() != sp {
@@ -460,7 +467,7 @@ func c03DryFlow(e *Env, s *Sched) {
 	newFn := e.Fn(schedRel, "New")
 	if newFn != nil {
 		ok := false
-		for _, ev := range e.C.FieldStores(newFn, "dry") {
+		for _, ev := range e.C.FieldStores(newFn, e.schedFields().Dry) {
 			if ev.Val != nil && e.IsFieldRead(ev.Val, nil, "Dry") {
 				ok = true
 			}
@@ -468,11 +475,16 @@ func c03DryFlow(e *Env, s *Sched) {
 		r.Check(ok, "scheduler.New: Scheduler.dry := Config.Dry", e.Pos(newFn.Pos()), "the scheduler's dry flag is not taken from its configuration")
 	}
 	// agent.newScheduler: Config.Dry := a.dry
-	ns := e.Fn("internal/agent", "(*Agent).newScheduler")
+	var ns *ssa.Function
+	if hs := e.agentRoles().Holders("internal/dag/scheduler.New$"); len(hs) == 1 {
+		ns = hs[0]
+	} else {
+		r.Unknown("agent: where the scheduler is constructed", agentRel, sprintf("%d functions of the agent call scheduler.New", len(hs)))
+	}
 	if ns != nil {
 		ok := false
 		for _, ev := range e.C.FieldStores(ns, "Dry") {
-			if ev.Val != nil && e.IsFieldRead(ev.Val, nil, "dry") {
+			if ev.Val != nil && e.IsFieldRead(ev.Val, nil, e.agentDryField()) {
 				ok = true
 			}
 		}
@@ -482,7 +494,7 @@ func c03DryFlow(e *Env, s *Sched) {
 	an := e.Fn("internal/agent", "New")
 	if an != nil {
 		ok := false
-		for _, ev := range e.C.FieldStores(an, "dry") {
+		for _, ev := range e.C.FieldStores(an, e.agentDryField()) {
 			if ev.Val != nil && e.IsFieldRead(ev.Val, nil, "Dry") {
 				ok = true
 			}
@@ -545,9 +557,24 @@ func fieldNameOf(fa *ssa.FieldAddr) string {
 func c03DryNoHistory(e *Env, s *Sched) {
 	r := e.R
 	r.Rule("C03.dry-no-history", "DCS+REACH", "history/socket only under !a.dry; dryRun reaches no HistoryStore method", 3)
-	run := e.Fn("internal/agent", "(*Agent).Run")
-	dry := e.Fn("internal/agent", "(*Agent).dryRun")
-	if run == nil || dry == nil {
+	ar := e.agentRoles()
+	run := ar.Run
+	if run == nil {
+		return
+	}
+	// by role: the dry run is the function of the agent, other than Run, that schedules
+	var dry *ssa.Function
+	for _, h := range ar.Holders(apiSchedule) {
+		if h != run {
+			if dry != nil {
+				r.Unknown("the agent's dry run", agentRel, "several functions besides Run schedule the graph")
+				return
+			}
+			dry = h
+		}
+	}
+	if dry == nil {
+		r.Unknown("the agent's dry run", agentRel, "no function of the agent besides Run schedules the graph")
 		return
 	}
 	isHistOrSock := func(f *ssa.Function) bool {
@@ -556,7 +583,7 @@ func c03DryNoHistory(e *Env, s *Sched) {
 	}
 	isADry := func(v ssa.Value) bool {
 		p, ok := e.C.PathOf(v)
-		return ok && p.Dotted() == "dry" && strings.HasSuffix(ir.NamedType(p.Root.Type()), ".Agent")
+		return ok && p.Dotted() == e.agentDryField() && strings.HasSuffix(ir.NamedType(p.Root.Type()), ".Agent")
 	}
 	// the dry branch: `if a.dry { return a.dryRun() }`
 	found := false
